@@ -7,7 +7,7 @@ class RegConcCheck(PropCheck):
     pid = "C02"
     prop_module = "SigHook.Props.C02"
     profile = "mixed"
-    n_quick, n_thorough = 300, 4000
+    n_quick, n_thorough = 300, 20000
 
     def correspond(self, tier, seed, rng):
         n = self.n_quick if tier == "quick" else self.n_thorough
@@ -216,7 +216,7 @@ class C18rc(RegConcCheck):
     unregister_signal) never deadlock"""
     pid = "C18"
     profile = "mutators"
-    n_quick, n_thorough = 200, 3000
+    n_quick, n_thorough = 200, 15000
 
 
 class C05rc(RegConcCheck):
@@ -224,7 +224,7 @@ class C05rc(RegConcCheck):
     pid = "C05"
     prop_module = "SigHook.Props.C05"
     profile = "unregrace"
-    n_quick, n_thorough = 250, 3000
+    n_quick, n_thorough = 250, 15000
 
 
 class C01rc(RegConcCheck):
@@ -233,4 +233,4 @@ class C01rc(RegConcCheck):
     pid = "C01"
     prop_module = "SigHook.Props.C01"
     profile = "mixed"
-    n_quick, n_thorough = 200, 3000
+    n_quick, n_thorough = 200, 15000
